@@ -16,7 +16,7 @@ Added later in build rounds 2-3 (see DESIGN.md section 3, round-2/3 table):
 R06.10 block wrapping at exact multiples of the line width: no writer helper takes the last block as `s[-tail:]` with `tail` a remainder that can be zero ...
 R06.11 reading back what was written needs the bytes decoded as they were encoded: in util.io.open_ (i) a caller's explicit `encoding` is used -- the ...
 R06.8 labels are preserved verbatim by the block-format parsers (PAML, PHYLIP, Clustal): the first element of every yielded record does not derive -- along ...
-R06.9 GenBank bytes parser: records are split on the line-anchored terminator b'\ //'; because that separator begins with the newline of the previous line, ...
+R06.9 GenBank bytes parser: records are split on the line-anchored terminator b'<newline>//'; because that separator begins with the newline of the previous line, ...
 """
 
 from __future__ import annotations
